@@ -19,6 +19,9 @@ def main():
     if args and args[0] == "--round2":
         src_root, tag = "/tmp/mut2", "r2"
         args = args[1:]
+    elif args and args[0] == "--round3":
+        src_root, tag = "/tmp/mut3", "r3"
+        args = args[1:]
     only = args
     head = sh("git -C /repo rev-parse --short HEAD")[1].strip()
     for pid in sorted(os.listdir(src_root)):
